@@ -36,7 +36,8 @@ CPU_BUDGET = 5.0
 CPU_HARD = 20
 CLASSES = ["Ace", "Remark", "AceGroup", "Acl", "Address", "AddressAg", "AddrGroup", "Port", "Protocol", "Option", "Wildcard",
            "acls", "aces", "addrgroups"]
-PLATFORMS = ["ios", "nxos", "asa"]
+PLATFORMS = ["ios", "nxos", "asa", "ios", "nxos", "asa", "cisco_ios", "cisco_nxos", "cnx", "cisco_asa"]  # documented spellings
+ALIAS = {"cisco_ios": "ios", "cisco_nxos": "nxos", "cnx": "nxos", "cisco_asa": "asa"}
 ADDR_LIKE = {"any", "host", "object-group", "addrgroup"}
 
 VOCAB = (["permit", "deny", "remark", "ip", "tcp", "udp", "icmp", "any", "host", "object-group", "addrgroup", "group-object",
@@ -148,6 +149,7 @@ def _render(obj):
 def classify_known(case, stage, exc, first_type=None, rendered=None) -> str | None:
     """Mechanism keys of the known findings (never input hashes)."""
     cls, text, platform = case["cls"], case["text"], case["kwargs"].get("platform", "ios")
+    platform = ALIAS.get(platform, platform)
     if stage == "reaccept":
         if cls in ("Acl", "Remark") and not text.strip():
             return "blank-acl-remark"
@@ -262,6 +264,18 @@ DETERMINISTIC = [
     {"cls": "AddressAg", "text": "10.0.0.0 0.0.0.0", "kwargs": {"platform": "ios"}},
     {"cls": "AddrGroup", "text": "object-group network G1\n 10.0.0.0 0.0.0.0", "kwargs": {"platform": "ios"}},
     {"cls": "addrgroups", "text": "object-group network G1\n 10.0.0.0 0.0.0.0\n host 1.1.1.1", "kwargs": {"platform": "ios"}},
+    # address groups that lead back to themselves through group-object (directly, or G -> H -> G), used by an ACE
+    {"cls": "acls", "text": "object-group network G\n group-object G\n host 10.0.0.1\nip access-list extended A\n permit ip object-group G any\n",
+     "kwargs": {"platform": "ios"}},
+    {"cls": "acls", "text": "object-group network G\n host 10.0.0.1\n group-object H\nobject-group network H\n group-object G\n"
+                            "ip access-list extended A\n permit ip any object-group G\n permit ip object-group H any\n",
+     "kwargs": {"platform": "ios"}},
+    {"cls": "aces", "text": "object-group network G\n group-object G\nip access-list extended A\n permit ip object-group G any\n",
+     "kwargs": {"platform": "cisco_ios"}},
+    {"cls": "addrgroups", "text": "object-group network G\n group-object H\nobject-group network H\n group-object G\n", "kwargs": {"platform": "ios"}},
+    {"cls": "acls", "text": "object-group ip address G\n 10 group-object G\nip access-list A\n permit ip addrgroup G any\n", "kwargs": {"platform": "nxos"}},
+    {"cls": "Ace", "text": "permit tcp any any eq 80", "kwargs": {"platform": "cisco_asa"}},
+    {"cls": "Acl", "text": "ip access-list extended A\n permit icmp any any", "kwargs": {"platform": "cisco_asa"}},
     {"cls": "Port", "text": "range 4294967296 1284", "kwargs": {"platform": "ios", "protocol": "tcp"}},
     {"cls": "Ace", "text": "permit tcp any any range 1 99999999999", "kwargs": {"platform": "nxos"}},
     {"cls": "acls", "text": "\n".join(" " * i + f"l{i}" for i in range(1500)), "kwargs": {"platform": "ios"}},
